@@ -134,7 +134,31 @@ pub mod rawnode {
 /// Crate-private parts of a `Raft` node that the node-level correspondence (`rvh raftnode`)
 /// compares in addition to what the public API shows.  Read-only.
 pub mod node {
+    use crate::storage::{GetEntriesContext, GetEntriesFor};
     use crate::{Raft, Storage};
+
+    /// The context `Raft::send_append` hands to `Storage::entries` (`GetEntriesFor::SendAppend`): the
+    /// enum is crate-private, so a harness that replays a recorded `RawNode::on_entries_fetched` call
+    /// needs a constructor.
+    pub fn send_append_context(to: u64, term: u64, aggressively: bool) -> GetEntriesContext {
+        GetEntriesContext(GetEntriesFor::SendAppend {
+            to,
+            term,
+            aggressively,
+        })
+    }
+
+    /// The fields of a `GetEntriesFor::SendAppend` context (`None` for every other kind).
+    pub fn send_append_context_fields(ctx: &GetEntriesContext) -> Option<(u64, u64, bool)> {
+        match ctx.0 {
+            GetEntriesFor::SendAppend {
+                to,
+                term,
+                aggressively,
+            } => Some((to, term, aggressively)),
+            _ => None,
+        }
+    }
 
     /// `mcs=<max_committed_size_per_ready> mi=<tracker max_inflight> in=<incoming voters, sorted>
     /// out=<outgoing voters, sorted>`
